@@ -492,7 +492,8 @@ impl BitMachine {
 
             Ok(value)
         } else {
-            Ok(Value::unit())
+            // The target type has no bits, but it need not be the unit type itself.
+            Ok(Value::zero(&program.arrow().target))
         }
     }
 
